@@ -42,7 +42,8 @@ def run(ctx):
         "empties the trash); non-trivial = crash points at which some effect had already happened and some was still to come"
     )
     ctx.assumptions = [
-        "SQLite makes a committed transaction durable and discards an open one when the process dies (journal mode as configured by daf_butler)",
+        "SQLite makes a committed transaction durable and discards an open one when the process dies — the pragmas of the live connections "
+        "(journal_mode, synchronous, foreign_keys) are read on every run, and a process is killed inside one very large transaction",
         "os.rename / os.link are atomic on the local filesystem; a process death is simulated with os._exit (kernel crashes / power loss with "
         "unsynced pages are not simulated)",
         "crash points inside C extensions (within one SQL statement, within one write syscall) are not reachable",
@@ -54,11 +55,12 @@ def run(ctx):
             if not ctx.quick():
                 core.leanchecker(ctx, ["ButlerModel.Props.C08"])
     with repo.Scratch("verif-c08-") as tmp:
+        durability(ctx, tmp)
         crash_points(ctx, built, tmp)
 
 
 # ------------------------------------------------------------------------------------------------ scenarios
-DET = {"keep": 1, "t2": 2, "t3": 3, "trashed": 4, "s5": 5, "s6": 6, "x7": 7, "x8": 8, "new9": 9, "in10": 10, "in11": 11, "x12": 12}
+DET = {"keep": 1, "t2": 2, "t3": 3, "trashed": 4, "s5": 5, "s6": 6, "x7": 7, "x8": 8, "new9": 9, "ref9": 9, "in10": 10, "in11": 11, "x12": 12}
 
 
 def build_template(tmp):
@@ -112,6 +114,8 @@ def build_template(tmp):
     meta["content"]["new9"] = {"v": 9, "pad": "n" * 70}
     meta["content"]["in10"] = meta["content"]["in11"] = {"i": 1011, "pad": "i" * 80}
     # fixed ids for the refs the ingest scenarios create
+    meta["content"]["ref9"] = {"v": 99, "pad": "r" * 70}
+    meta["ids"]["ref9"] = uuid.UUID(int=0x9999).hex
     meta["ids"]["in10"] = uuid.UUID(int=0x1010).hex
     meta["ids"]["in11"] = uuid.UUID(int=0x1111).hex
     del b, src
@@ -127,6 +131,11 @@ def scenario_ops():
 
     def put(b, area, meta):
         b.put(dict(meta["content"]["new9"]), "dt", instrument="I", detector=9, run="r1")
+
+    def put_ref(b, area, meta):
+        # the other call form: the caller hands over a resolved ref (a task writing its predefined output)
+        ref = DatasetRef(b.get_dataset_type("dt"), b.registry.expandDataId(instrument="I", detector=9), run="r1", id=uuid.UUID(meta["ids"]["ref9"]))
+        b.put(dict(meta["content"]["ref9"]), ref)
 
     def ingest(how):
         def f(b, area, meta):
@@ -163,6 +172,7 @@ def scenario_ops():
     return {
         "ingest-zip": ("insert", ["x7", "x8"], ingest_zip),
         "put": ("insert", ["new9"], put),
+        "put-resolved-ref": ("insert", ["ref9"], put_ref),
         "ingest-copy": ("insert", ["in10", "in11"], ingest("copy")),
         "ingest-move": ("insert", ["in10", "in11"], ingest("move")),
         "transfer": ("insert", ["x7", "x8"], transfer),
@@ -495,6 +505,101 @@ def translate(trace, area, num, run_members, canon_path):
         toks += new
         prefix.append(len(toks))
     return toks, prefix
+
+
+def _big_txn_child(root, n):
+    """child: one ingest of a file shared by n datasets — a single transaction far larger than SQLite's page cache — dying at COMMIT"""
+    import warnings
+
+    warnings.filterwarnings("ignore")
+    import sqlalchemy
+    from lsst.daf.butler import Butler, DatasetRef, FileDataset
+
+    b = Butler.from_config(root, writeable=True, run="big")
+    dt = b.get_dataset_type("dt")
+    refs = [DatasetRef(dt, {"instrument": "I", "detector": i}, run="big") for i in range(100, 100 + n)]
+    src = os.path.join(os.path.dirname(root), "big.yaml")
+    with open(src, "w") as fh:
+        fh.write("big: 1\n")
+    armed = [False]
+
+    def die(conn):
+        if armed[0]:
+            os._exit(77)
+
+    sqlalchemy.event.listen(b._registry._db._engine, "commit", die)
+    armed[0] = True
+    b.ingest(FileDataset(path=src, refs=refs), transfer="copy")
+    os._exit(0)
+
+
+def durability(ctx, tmp):
+    """The crash theorems rest on SQLite rolling back a transaction that never committed.  That holds while the rollback journal
+    (or WAL) is on disk: the connection's pragmas are read from the live engine, and a process is really killed at the COMMIT of one
+    transaction of several thousand datasets (far beyond SQLite's page cache) and the file reopened by a fresh client."""
+    import sqlite3
+
+    from lsst.daf.butler import Butler, DatasetType
+
+    def viol(what, key, replay, found=True):
+        ctx.violations.append(core.Violation(what=what, key=key, replay=replay, found_input=found))
+
+    root = os.path.join(tmp, "dur", "repo")
+    os.makedirs(os.path.dirname(root))
+    b = repo.make_butler(root, run="r1")
+    N = 3000 if ctx.quick() else 8000
+    b.registry.insertDimensionData("instrument", {"name": "I"})
+    b.registry.insertDimensionData("detector", *[{"instrument": "I", "id": i, "full_name": f"d{i}"} for i in [1] + list(range(100, 100 + N))])
+    dt = DatasetType("dt", {"instrument", "detector"}, "StructuredDataDict", universe=b.dimensions)
+    b.registry.registerDatasetType(dt)
+    b.registry.registerRun("big")
+    keep = b.put({"keep": 1}, dt, instrument="I", detector=1)
+    with b._registry._db._engine.connect() as con:
+        jm = str(con.exec_driver_sql("PRAGMA journal_mode").scalar()).lower()
+        sync = int(con.exec_driver_sql("PRAGMA synchronous").scalar())
+        fk = int(con.exec_driver_sql("PRAGMA foreign_keys").scalar())
+    ctx.extra["sqlite_pragmas"] = {"journal_mode": jm, "synchronous": sync, "foreign_keys": fk}
+    ctx.evaluations += 1
+    durable = jm in ("delete", "truncate", "persist", "wal") and sync >= 1
+    if fk != 1:
+        ctx.broken.append(f"assumption: PRAGMA foreign_keys = {fk} on the registry's connections (ON DELETE CASCADE / RESTRICT are what removal relies on)")
+    del b
+    pid = os.fork()
+    if pid == 0:
+        try:
+            _big_txn_child(root, N)
+        except BaseException:  # noqa: BLE001
+            os._exit(3)
+    _, status = os.waitpid(pid, 0)
+    code = os.waitstatus_to_exitcode(status)
+    ctx.count(f"big-transaction-crash:exit{code}")
+    problems = []
+    try:
+        con = sqlite3.connect(os.path.join(root, "gen3.sqlite3"))
+        res = [r[0] for r in con.execute("PRAGMA integrity_check").fetchall()]
+        con.close()
+        if res != ["ok"]:
+            problems.append(f"PRAGMA integrity_check: {res[:2]}")
+    except Exception as e:
+        problems.append(f"the database cannot be opened: {type(e).__name__}: {str(e)[:80]}")
+    try:
+        fresh = Butler.from_config(root, writeable=False)
+        if fresh.get(keep) != {"keep": 1}:
+            problems.append("the dataset that was not a target reads back changed")
+        n_big = len(fresh.query_datasets("dt", collections="big", explain=False, limit=None))
+        if n_big not in (0, N):
+            problems.append(f"{n_big} of the {N} datasets of the interrupted ingest are registered")
+    except Exception as e:
+        problems.append(f"a fresh Butler fails: {type(e).__name__}: {str(e)[:100]}")
+    if code != 77:
+        ctx.broken.append(f"durability experiment: the child did not reach its COMMIT (exit {code})")
+    if problems:
+        viol(f"process killed at the COMMIT of one ingest of a file shared by {N} datasets (journal_mode={jm}, synchronous={sync}): " + "; ".join(problems),
+             f"big-transaction-crash:{jm}", {"kind": "big-transaction-crash", "datasets": N, "pragmas": ctx.extra["sqlite_pragmas"], "problems": problems})
+    elif not durable:
+        viol(f"the registry's SQLite connections run with journal_mode={jm}, synchronous={sync}: an uncommitted transaction is no longer rolled back from "
+             "disk after a crash (theorem crash_consistent assumes it); the large-transaction experiment did not exhibit a corrupted file",
+             f"not-durable:{jm}:{sync}", {"kind": "assumption", "pragmas": ctx.extra["sqlite_pragmas"]}, found=False)
 
 
 def crash_points(ctx, model_ok, tmp):
